@@ -325,8 +325,12 @@ MANIFEST = {
             "enumerate domain() bijectively), C10_eval_sum (product construction = pointwise saturating sum), "
             "C10_eval_restrict / C10_eval_restrict_first (the original with one variable fixed, both branches), "
             "C10_modelcount (backward DP = histogram of the evaluated value over all assignments, any shape and size), "
-            "C10_eval_is_saturating_path_sum, C10_refuted_F12 -- over an executable Gallina model of AValue / ATally / ADD. "
-            "The constructor clause (chain / tree / stack / concatenate) is tied by correspondence only. Tied to the "
+            "C10_eval_is_saturating_path_sum, C10_refuted_F12; ANY SEQUENCE of operations: C10_chain_wellformed / "
+            "C10_tree_wellformed (the constructors produce well-formed diagrams), C10_sum_wellformed / "
+            "C10_restrict_wellformed / C10_update_wellformed (sum, restrict and edge updates keep them well formed), "
+            "C10_wellformed_suffices (well-formedness gives every side condition of the theorems above), "
+            "C10_update_semantics -- over an executable Gallina model of AValue / ATally / ADD. "
+            "PARTIAL: stack / concatenate are modelled and tied by correspondence; no theorem about them. Tied to the "
             "code at unit level: diagrams built through the API are dumped and every operation sequence is replayed in "
             "the model; value tables and model counts compared after every step, and against pointwise semantics, in Coq.",
     "note": "Trusted: Coq kernel + vm_compute; harness (dump of nodes/child/adder arrays). Binary candidates only. "
